@@ -21,6 +21,7 @@ for d in seeded/*/; do
     C01-m7) checks="C01 C07";;
     C12-m7) checks="C12 C15";;
     C16-m7) checks="C16 C15";;
+    C09-m7) checks="C09 C16";;
     C09-m5) continue;;          # obsolete: its scenario (data query on a tag with converters) is rejected since fix 2d7… (see DESIGN 10.6)
   esac
   python3 lib/mutants.py run $n $checks 2>&1 | grep -v KNOWN | cut -c1-240 >> $OUT.tmp
